@@ -36,12 +36,13 @@ def gen_strings(run, tier):
 def run(run, tier, replay=None):
     from openapi_python_client import utils
     strs = gen_strings(run, tier)
-    scope_replay = None
+    scope_replay = pp_replay = None
     if replay:
         import json
         rv = json.load(open(replay))["violations"]
         strs = [v["input"] for v in rv if "input" in v]
         scope_replay = [v["scope_case"] for v in rv if "scope_case" in v]
+        pp_replay = [v["pp_case"] for v in rv if "pp_case" in v]
     run.rule = ("strings from 3 alphabets (ordinary / hostile / all planes), keywords+builtins with case variants, and every code point where a "
                 "character predicate or case map of the interpreter changes value, in leading/inner/trailing position; a case is one (function, string, prefix) "
                 "evaluation; non-trivial = the sanitized string is non-empty; distinct by hash of (function, string, prefix). Name sets: random sets of 2-5 names "
@@ -97,6 +98,7 @@ def run(run, tier, replay=None):
         else:
             run.violation("oracle", {"fn": fn, "input": s, "prefix": pfx, "impl": got, "note": "inside the proved domain (guard true) yet not a valid non-keyword identifier"})
     scopes_corr(run, tier, scope_replay)
+    procprops_corr(run, tier, pp_replay)
     if not replay:
         scopes(run, tier)
 
@@ -489,3 +491,287 @@ def _judge_scope(run, scope, names, pn, diags, reserved=()):
             if run.known_finding("raw_fallback", f"{scope}: names {names!r} collide after snake_case; raw-name fallback yields {invalid!r} (not identifiers)"):
                 return
         run.violation("oracle", {"scope": scope, "names": names, "python_names": pn, "invalid": invalid})
+
+
+# ------------------------------------------------------------------ stage B/C for ProcProps.v: allOf merging x python-name conflicts
+# A case is a small description of a components-only document: leaf object schemas A0..Ak (the referenced allOf members) and the
+# composed schema Z = allOf[$ref | inline object]* + own properties.  kind: "any" | "string" | "date" | "date-time" | "integer" |
+# "number" | ["enum_s", [..]] | ["enum_i", [..]] | ["ref", <component enum>].
+PP_ENUMS = {"ES1": ("s", ["a", "b"]), "ES2": ("s", ["a", "b", "c"]), "ES3": ("s", ["x", "y"]), "EI1": ("i", [1, 2]), "EI2": ("i", [1, 2, 3])}
+PP_FAMS = [   # short names: the model's name functions are evaluated character by character inside Coq
+    (["toDo", "to_do", "ToDo", "to-do", "To_Do", "toDo$"], "s"),
+    (["endT", "end_t", "EndT", "end t"], "s"),
+    (["aBc", "ABc", "A_bc", "$a_Bc", "a_Bc", "a_bc"], "s"),
+    (["Self", "self!", "$Self", "self"], "s"),
+    (["cnT", "cn_t", "CnT", "cn.t"], "n"),
+    (["id", "ID", "Id", "_id"], "n"),
+    (["mV", "m_v", "M_V"], "n"),
+    (["x"], "n"), (["lb"], "s"), (["class"], "s"),
+]
+PP_CLUSTER = {"s": ["any", "string", "string", "date", "date-time", "enum_s", "ref_s"], "n": ["any", "integer", "number", "number", "enum_i", "ref_i"]}
+PP_SIMPLE = {"any": ({}, "MAny"), "string": ({"type": "string"}, "MStr"), "date": ({"type": "string", "format": "date"}, "MDate"),
+             "date-time": ({"type": "string", "format": "date-time"}, "MDateTime"), "integer": ({"type": "integer"}, "MInt"),
+             "number": ({"type": "number"}, "MFloat")}
+PP_HDR = HDR + """
+Require Import OPC.PyLit OPC.Values OPC.Merge OPC.Scopes OPC.ProcProps.
+Definition fp : str := [102;105;101;108;100;95].
+Definition o0 : oracles := {| parse_float := fun _ => None; float_of_int := fun _ => None; isoparse_ok := fun _ => false; uuid_ok := fun _ => false |}.
+Definition P (k : mkind) : mprop := MP k false None None None PL_none.
+Definition ES (vs : list str) : mprop := MP MEnum false None None None (PL_enum VStr (map (fun v => (@nil N, EStr v)) vs) []).
+Definition EI (vs : list Z) : mprop := MP MEnum false None None None (PL_enum VInt (map (fun v => (@nil N, EInt v)) vs) []).
+Definition R (p : mprop) : mprop := set_required true p.
+Definition ev_eqb (a b : str * evalue) : bool := evalue_eqb (snd a) (snd b).
+Definition oprop_eqb (a b : mprop) : bool :=
+  mkind_eqb (mp_kind a) (mp_kind b) && Bool.eqb (mp_required a) (mp_required b) &&
+  match mp_pl a, mp_pl b with
+  | PL_none, PL_none => true
+  | PL_enum v1 m1 _, PL_enum v2 m2 _ => vtype_eqb v1 v2 && list_eqb ev_eqb m1 m2
+  | _, _ => false
+  end.
+Definition oinp_eqb (a b : inp) : bool := str_eqb (i_name a) (i_name b) && str_eqb (i_py a) (i_py b) && oprop_eqb (i_prop a) (i_prop b).
+Definition pp_eqb (a b : pres (list inp)) : bool :=
+  match a, b with
+  | POk x, POk y => list_eqb oinp_eqb x y
+  | PErrMerge, PErrMerge | PErrName, PErrName | PErrRef, PErrRef => true
+  | _, _ => false
+  end.
+Definition pp_model (d : cdoc) : pres (list inp) := pres_map req_first (process_doc o0 fp d).
+"""
+
+
+def _pp_palette(rng, cluster):
+    """Kinds one name family draws from in one document: mostly a chain that merge_properties can narrow (any < string < date,
+    any < number < integer < int enum, ...), so that re-declarations usually merge and the python-name logic is reached."""
+    if cluster == "s":
+        top = rng.choice([["date"], ["date-time"], ["enum_s", "ref_s"], ["enum_s"], ["ref_s"]])
+        return ["any", "string", "string"] + top + top
+    top = rng.choice([["integer"], ["integer", "enum_i"], ["integer", "ref_i"]])
+    return ["any", "number"] * (1 if len(top) > 1 else 2) + top + top
+
+
+def _pp_kind(rng, palette, owner, fam_key, inline_enums):
+    k = rng.choice(palette) if rng.random() < 0.93 else rng.choice(PP_CLUSTER["s"] + PP_CLUSTER["n"])
+    if k in ("enum_s", "enum_i"):
+        # one inline enum per (owner class, name family): the enum class name is derived from both, and two different value lists
+        # under one class name are rejected by EnumProperty.build before the loop under test is reached
+        key = (owner, fam_key)
+        if key not in inline_enums:
+            inline_enums[key] = [k, list(rng.choice([["a", "b"], ["a", "b", "c"], ["a", "b"], ["b"], ["x", "y"]]) if k == "enum_s" else rng.choice([[1, 2], [1, 2, 3], [2], [7, 8]]))]
+        if inline_enums[key][0] == k:
+            return inline_enums[key]
+        k = "string" if k == "enum_s" else "integer"
+    if k == "ref_s":
+        return ["ref", rng.choice(["ES1", "ES2", "ES2", "ES3"])]
+    if k == "ref_i":
+        return ["ref", rng.choice(["EI1", "EI2"])]
+    return k
+
+
+def gen_pp_case(rng):
+    fams = rng.sample(range(len(PP_FAMS)), rng.randint(1, 3))
+    pool = []
+    for fi in fams:
+        names, cl = PP_FAMS[fi]
+        pal = _pp_palette(rng, cl)
+        for nm in rng.sample(names, min(len(names), rng.randint(1, 3))):
+            pool.append((nm, pal, fi))
+    inline_enums = {}
+
+    def obj(owner, lo, hi):
+        chosen = rng.sample(pool, min(len(pool), rng.randint(lo, hi)))
+        props = [[nm, _pp_kind(rng, pal, owner, fi, inline_enums)] for nm, pal, fi in chosen]
+        req = [nm for nm, _, _ in pool if rng.random() < (0.3 if any(nm == p[0] for p in props) else 0.08)]
+        return {"props": props, "required": req}
+
+    k = rng.randint(1, 3)
+    parents = [obj(f"A{i}", 1, 4) for i in range(k)]
+    members = []
+    for j in range(rng.randint(2, 4)):
+        if rng.random() < 0.5:
+            members.append({"ref": rng.randrange(k)})
+        else:
+            members.append(obj("Z", 1, 4))
+    own = obj("Z", 1, 3) if rng.random() < 0.45 else {"props": [], "required": []}
+    return {"parents": parents, "members": members, "own": own}
+
+
+def _pp_schema(kind):
+    if isinstance(kind, str):
+        return dict(PP_SIMPLE[kind][0])
+    if kind[0] == "ref":
+        return {"$ref": "#/components/schemas/" + kind[1]}
+    return {"type": "string" if kind[0] == "enum_s" else "integer", "enum": list(kind[1])}
+
+
+def _pp_object(o):
+    d = {"type": "object", "properties": {n: _pp_schema(kd) for n, kd in o["props"]}}
+    if o["required"]:
+        d["required"] = list(o["required"])
+    return d
+
+
+def pp_doc(case):
+    """The composed schema comes FIRST: _process_models then attempts it exactly once after its members (a failed attempt of a
+    schema listed after its members is repeated on property objects whose python names the first attempt already changed)."""
+    z = {"allOf": [({"$ref": f"#/components/schemas/A{m['ref']}"} if "ref" in m else _pp_object(m)) for m in case["members"]]}
+    if case["own"]["props"]:
+        z["type"] = "object"
+        z["properties"] = _pp_object(case["own"])["properties"]
+    if case["own"]["required"]:
+        z["required"] = list(case["own"]["required"])
+    comps = {"Z": z}
+    for i, p in enumerate(case["parents"]):
+        comps[f"A{i}"] = _pp_object(p)
+    for en, (t, vals) in PP_ENUMS.items():
+        comps[en] = {"type": "string" if t == "s" else "integer", "enum": list(vals)}
+    return impl.base_doc(components={"schemas": comps})
+
+
+def _pp_mprop(kind):
+    if isinstance(kind, str):
+        return f"(P {PP_SIMPLE[kind][1]})"
+    if kind[0] == "ref":
+        t, vals = PP_ENUMS[kind[1]]
+        kind = ["enum_s" if t == "s" else "enum_i", vals]
+    if kind[0] == "enum_s":
+        return f"(ES {cstrs(kind[1])})"
+    return "(EI [" + "; ".join(f"({v})%Z" for v in kind[1]) + "])"
+
+
+def _pp_cschema(o):
+    ds = "[" + "; ".join(f"({cstr(n)}, {_pp_mprop(kd)})" for n, kd in o["props"]) + "]" if o["props"] else "(@nil decl)"
+    return f"({ds}, {cstrs(o['required'])})"
+
+
+def pp_cdoc(case):
+    ps = "[" + "; ".join(_pp_cschema(p) for p in case["parents"]) + "]"
+    ms = "[" + "; ".join((f"MRef {m['ref']}" if "ref" in m else f"MInl {_pp_cschema(m)}") for m in case["members"]) + "]"
+    return f"(mk_cdoc {ps} {ms} {_pp_cschema(case['own'])})"
+
+
+_PP_TYPES = {"AnyProperty": "MAny", "StringProperty": "MStr", "DateProperty": "MDate", "DateTimeProperty": "MDateTime", "IntProperty": "MInt", "FloatProperty": "MFloat"}
+
+
+def real_pp(case):
+    """The composed model Z through the real document parser: ('ok', [(name, python_name, kind term, type name, required)]) in
+    required-then-optional order | ('err', 'merge'|'name'|'ref', detail) | ('other', text)."""
+    data, _ = impl.parse_doc(pp_doc(case))
+    if not hasattr(data, "models"):
+        return ("other", str(data)[:300])
+    z = [m for m in data.models if str(m.class_info.name) == "Z"]
+    zerr = [e for e in data.errors if "/components/schemas/Z:" in str(getattr(e, "header", ""))]
+    if z and not zerr:
+        m = z[0]
+        if m.required_properties is None or m.optional_properties is None:
+            return ("other", "Z left unprocessed")
+        out = []
+        for p in list(m.required_properties) + list(m.optional_properties):
+            tn = type(p).__name__
+            if tn in _PP_TYPES:
+                t = f"(P {_PP_TYPES[tn]})"
+            elif tn == "EnumProperty":
+                vals = list(p.values.values())
+                t = f"(ES {cstrs(vals)})" if p.value_type is str else "(EI [" + "; ".join(f"({v})%Z" for v in vals) + "])"
+            else:
+                return ("other", "unexpected property class " + tn)
+            out.append((p.name, str(p.python_name), f"(R {t})" if p.required else t, tn, bool(p.required)))
+        return ("ok", out)
+    if zerr and not z:
+        det = str(zerr[-1].detail or "")
+        if det.startswith("Properties ") and "have the same python_name" in det:
+            return ("err", "name", det[:160])
+        if det.startswith("Reference ") and "in allOf was not processed" in det:
+            return ("err", "ref", det[:160])
+        if "can't be merged with" in det or "can't redefine an enum property" in det or "can't combine enum of type" in det:
+            return ("err", "merge", det[:160])
+        return ("other", det[:300])
+    return ("other", f"Z: {len(z)} model(s), {len(zerr)} error(s); errors: " + "; ".join(str(e.detail)[:100] for e in data.errors))
+
+
+PP_FIXED = [
+    # later member re-declares the first of two snake-case twins with a narrower type: the merged property takes the new declaration's python name
+    {"parents": [{"props": [["startDate", "string"]], "required": []}],
+     "members": [{"ref": 0}, {"props": [["start_date", "string"]], "required": []}, {"props": [["startDate", "date"]], "required": ["startDate"]}], "own": {"props": [], "required": []}},
+    {"parents": [{"props": [["itemCount", "number"], ["item_count", "number"]], "required": []}, {"props": [["itemCount", "integer"]], "required": []}],
+     "members": [{"ref": 0}, {"ref": 1}], "own": {"props": [], "required": []}},
+    {"parents": [{"props": [["startDate", "any"], ["x", "integer"]], "required": ["x"]}],
+     "members": [{"ref": 0}, {"props": [["StartDate", "string"]], "required": []}], "own": {"props": [["startDate", ["enum_s", ["a", "b"]]], ["start_date", "string"]], "required": []}},
+    {"parents": [{"props": [["id", "integer"]], "required": []}, {"props": [["ID", "integer"]], "required": ["ID"]}],
+     "members": [{"ref": 0}, {"ref": 1}, {"props": [["id", ["ref", "EI1"]]], "required": []}], "own": {"props": [], "required": []}},
+    # the merge step whose rename of a third party is not re-checked (attr_rename_unchecked reached through a re-declaration)
+    {"parents": [{"props": [["fooBar", "string"], ["FooBar", "string"]], "required": []}],
+     "members": [{"ref": 0}, {"props": [["Foo_bar", "string"], ["$foo_Bar", "string"], ["foo_Bar", "string"]], "required": []}, {"props": [["fooBar", "date"]], "required": []}],
+     "own": {"props": [], "required": []}},
+    # raw names collide too -> diagnostic; incompatible kinds -> diagnostic; failed member -> diagnostic
+    {"parents": [{"props": [["startDate", "string"]], "required": []}], "members": [{"ref": 0}, {"props": [["startDate$", "string"]], "required": []}], "own": {"props": [], "required": []}},
+    {"parents": [{"props": [["startDate", "date"]], "required": []}], "members": [{"ref": 0}, {"props": [["startDate", "date-time"]], "required": []}], "own": {"props": [], "required": []}},
+    {"parents": [{"props": [["startDate", "string"], ["startDate$", "string"]], "required": []}], "members": [{"ref": 0}, {"props": [["x", "integer"]], "required": []}], "own": {"props": [], "required": []}},
+]
+
+
+def procprops_corr(run, tier, replay_cases=None):
+    import time
+    from openapi_python_client.utils import PythonIdentifier
+    rng = run.rng
+    n = 1000 if tier == "quick" else 14000
+    cases = list(replay_cases) if replay_cases is not None else PP_FIXED + [gen_pp_case(rng) for _ in range(n)]
+    terms, meta, rejected = [], [], 0
+    for case in cases:
+        got = real_pp(case)
+        if got[0] == "other":
+            rejected += 1
+            run.note_case({"pp_case": case, "impl": got}, nontrivial=False, kind="allOf/rejected-by-parser")
+            if replay_cases is not None or case in PP_FIXED:
+                run.violation("correspondence", {"pp_case": case, "impl": got, "note": "the composed schema Z is neither a processed model nor reported with one of the three diagnostics of the property loop"})
+            continue
+        if got[0] == "ok":
+            obs = "POk [" + "; ".join(f"mk_inp {cstr(nm)} {cstr(py)} {t}" for nm, py, t, _, _ in got[1]) + "]" if got[1] else "POk (@nil inp)"
+        else:
+            obs = {"merge": "PErrMerge", "name": "PErrName", "ref": "PErrRef"}[got[1]]
+        terms.append(f"pp_eqb (pp_model {pp_cdoc(case)}) ({obs})")
+        meta.append((case, got))
+        kind = "allOf/diagnostic-" + got[1] if got[0] == "err" else "allOf"
+        if got[0] == "ok":
+            decls = [nm for p in case["parents"] for nm, _ in p["props"]] + [nm for m in case["members"] if "ref" not in m for nm, _ in m["props"]] + [nm for nm, _ in case["own"]["props"]]
+            merged = len(decls) != len(set(decls))
+            renamed = any(py != str(PythonIdentifier(nm, "field_")) for nm, py, _, _, _ in got[1])
+            kind += ("/merge" if merged else "") + ("/raw-fallback" if renamed else "") + ("" if merged or renamed else "/plain")
+        run.note_case({"pp_case": case, "impl": [list(x[:2]) + [x[3], x[4]] for x in got[1]] if got[0] == "ok" else list(got)}, nontrivial=True, kind=kind)
+    if replay_cases is None and rejected > len(cases) // 20:
+        run.violation("correspondence", {"note": f"{rejected} of {len(cases)} generated allOf documents were not processed by the parser in the expected way (generator no longer fits the parser)"}, no_input=True)
+    bad = run_cases(PP_HDR, terms, shard=90, jobs=16)
+    run.corr["cases"] += len(terms)
+    run.corr["mismatches"] += len(bad)
+    run.corr["what"] += ("; GeneratorData.from_dict on components-only documents (composed schema Z = allOf of referenced / inline objects + own properties): Z's (name, python_name, "
+                         "property class, enum values, required) in required-then-optional order, or the kind of its diagnostic == ProcProps.process_doc")
+    for i in bad[:10]:
+        case, got = meta[i]
+        model = coq_eval(PP_HDR, f"pres_map (map (fun i => (i_name i, i_py i, mp_kind (i_prop i), mp_required (i_prop i)))) (pp_model {pp_cdoc(case)})")
+        run.violation("correspondence", {"pp_case": case, "impl": [list(x[:2]) + [x[3], x[4]] for x in got[1]] if got[0] == "ok" else list(got), "model": model[-700:],
+                                         "note": "_process_properties (allOf merge x python-name conflict resolution) no longer computes the function modelled in ProcProps.v (theorems of ProcPropsThm.v do not apply)"})
+    # ---- stage C on the same outputs: the python names of Z are pairwise distinct valid identifiers; failures are classified by the model
+    fails = []
+    for case, got in meta:
+        if got[0] != "ok":
+            continue
+        py = [x[1] for x in got[1]]
+        dup = len(set(py)) != len(py)
+        invalid = [(x[0], x[1]) for x in got[1] if not x[1].isidentifier() or keyword.iskeyword(x[1])]
+        if dup or invalid:
+            fails.append((case, got, py, dup, invalid))
+    explained = set()
+    dups = [f for f in fails if f[3]]
+    if dups:
+        notexpl = set(run_cases(PP_HDR, [f"has_dup_py (process_doc o0 fp {pp_cdoc(f[0])}) && negb (g_quiet_doc o0 fp {pp_cdoc(f[0])})" for f in dups], shard=60, jobs=16))
+        explained = {id(f[0]) for k, f in enumerate(dups) if k not in notexpl}
+    for case, got, py, dup, invalid in fails:
+        if dup:
+            if id(case) not in explained:
+                run.violation("oracle", {"pp_case": case, "python_names": py, "note": "two properties of the composed model share one python name, no diagnostic; the unchanged algorithm (ProcProps.process_doc) "
+                                         "does not produce a duplicate on this input or the run is inside the domain of process_quiet_distinct"})
+            elif not run.known_finding("attr_rename_unchecked", f"allOf model: properties {[x[0] for x in got[1]]!r} -> python names {py!r}: a raw-name fallback rename is not re-checked against third parties"):
+                run.violation("oracle", {"pp_case": case, "python_names": py, "note": "two attributes silently share one python name"})
+        if invalid:
+            rawfb = all(x == str(PythonIdentifier(nm, "field_", skip_snake_case=True)) and x != str(PythonIdentifier(nm, "field_")) for nm, x in invalid)
+            if not (rawfb and run.known_finding("raw_fallback", f"allOf model: properties {[x[0] for x in got[1]]!r} collide after snake_case; raw-name fallback yields {[x for _, x in invalid]!r} (not identifiers)")):
+                run.violation("oracle", {"pp_case": case, "python_names": py, "invalid": invalid, "note": "python name is not a valid non-keyword identifier and is not the raw-name fallback of its own document name"})
